@@ -296,12 +296,10 @@ class RefSFTP:
         rid = req.id if rid_override is None else rid_override
         t, f = req.type, req.f
         if getattr(self, 'trailing_slash_ok', False) and isinstance(f.get('path'), bytes):
-            # '/d/' and '/d/.' name the directory /d, as on any POSIX server (opt-in: other checks send hostile
+            # '/d/', '/d/.' and '/d/x/..' name the directory /d, as on any POSIX server (opt-in: other checks send hostile
             # paths that must reach the model unchanged)
-            p_ = f['path']
-            while len(p_) > 1 and (p_.endswith(b'/') or p_.endswith(b'/.')):
-                p_ = p_[:-1] if p_.endswith(b'/') else p_[:-2]
-            f['path'] = p_ or b'/'
+            import posixpath
+            f['path'] = posixpath.normpath(f['path']) if f['path'] else f['path']
         if type_override is not None:
             self._send(bytes([type_override]) + u32(rid) + type_override_body(type_override))
             return req
